@@ -217,6 +217,25 @@ inline std::string gen_utf8(Chooser& c) {
     for (unsigned i = 0; s.size() < target; i++) { s += "host-" + std::to_string(i * 7 + salt) + (i % 5 == 0 ? "-\xC3\xA9," : ","); }
     return s;
   }
+  if (c.range(0, 3) == 0) {
+    // 1..6 code points from the whole Unicode range (surrogates excluded), the boundaries of the encoding lengths and of the planes
+    // included: U+0000..U+10FFFF in one to four bytes
+    std::string s;
+    unsigned n = (unsigned)c.range(1, 6);
+    for (unsigned i = 0; i < n; i++) {
+      uint32_t cp;
+      uint64_t m = c.range(0, 4);
+      if (m == 0) cp = (uint32_t)c.pick<int>({0x7F, 0x80, 0x7FF, 0x800, 0xD7FF, 0xE000, 0xFFFD, 0xFFFF, 0x10000, 0x1D7FF, 0x1D800, 0x1DFFF, 0x2FFFF, 0xFD800, 0x10FFFF});
+      else if (m == 1) cp = (uint32_t)c.range(0x20, 0x7E);
+      else cp = (uint32_t)c.range(0x80, 0x10FFFF);
+      if (cp >= 0xD800 && cp <= 0xDFFF) cp += 0x800;
+      if (cp < 0x80) s.push_back((char)cp);
+      else if (cp < 0x800) { s.push_back((char)(0xC0 | (cp >> 6))); s.push_back((char)(0x80 | (cp & 0x3F))); }
+      else if (cp < 0x10000) { s.push_back((char)(0xE0 | (cp >> 12))); s.push_back((char)(0x80 | ((cp >> 6) & 0x3F))); s.push_back((char)(0x80 | (cp & 0x3F))); }
+      else { s.push_back((char)(0xF0 | (cp >> 18))); s.push_back((char)(0x80 | ((cp >> 12) & 0x3F))); s.push_back((char)(0x80 | ((cp >> 6) & 0x3F))); s.push_back((char)(0x80 | (cp & 0x3F))); }
+    }
+    return s;
+  }
   return c.pick<const char*>({"", "none", "Na\xC3\xAFve-\xE2\x82\xAC", "\xF0\x9F\x98\x80", "a-much-longer-method-description-0123456789-0123456789"});
 }
 struct BpOpts {
